@@ -1,87 +1,290 @@
 package main
 
-// A thin model of time.Time: time.Date(y, m, d, h, mi, s, ns, loc) with already normalised
-// fields (1<=m<=12, 1<=d<=28, 0<=h<24, 0<=mi<60, 0<=s<60, 0<=ns<1e9) denotes exactly that
-// civil date-time; Year/Month/Day/Hour/Minute/Second/Nanosecond return the fields.
-// Anything that needs calendar arithmetic (Add, AddDate, Sub, Unix, Weekday, ...) is not
-// modelled and makes the path unsupported.
+// Model of time.Time over the proleptic Gregorian calendar, location fixed to UTC:
+// a Time is (days since 1970-01-01, nanoseconds of the day), kept in the real struct's
+// fields (ext = days, wall = ns of day). time.Date normalises month and day the way package
+// time does (months outside 1..12 carry into the year, days outside the month carry over);
+// hour/minute/second/nanosecond must already be in range. Year/Month/Day come from the
+// standard civil-from-days algorithm, Add/Sub/Compare are integer arithmetic on the pair.
+// Replays run with TZ=UTC.
 
 import (
-	"go/types"
-
 	"golang.org/x/tools/go/ssa"
 )
 
-// The model stores the fields in the real struct: ext = year, wall = packed rest.
-func (ex *Exec) timePack(m, d, h, mi, s, ns *Term) *Term {
+const nsPerDay = 86400 * 1000000000
+
+type tmath struct{ ex *Exec }
+
+func (m tmath) k(v int64) *Term          { return m.ex.ts.BVSigned(64, v) }
+func (m tmath) add(a, b *Term) *Term      { return m.ex.ts.BVBin("bvadd", a, b) }
+func (m tmath) sub(a, b *Term) *Term      { return m.ex.ts.BVBin("bvsub", a, b) }
+func (m tmath) mul(a *Term, c int64) *Term { return m.ex.ts.BVBin("bvmul", a, m.k(c)) }
+func (m tmath) lt(a, b *Term) *Term       { return m.ex.ts.BVCmp("bvslt", a, b) }
+func (m tmath) le(a, b *Term) *Term       { return m.ex.ts.BVCmp("bvsle", a, b) }
+func (m tmath) ite(c, a, b *Term) *Term   { return m.ex.ts.Ite(c, a, b) }
+
+// floor division by a positive constant, encoded with witnesses instead of bvsdiv (which the
+// solvers do not decide at 64 bits): fresh q, r with a = q*c + r, 0 <= r < c, |q| small enough
+// that q*c cannot wrap. The witnesses are functions of a, so sat and unsat stay exact for
+// |a| < 2^62 (stated assumption; all calendar quantities are far below it).
+func (m tmath) fdiv(a *Term, c int64) *Term {
+	ex := m.ex
 	ts := ex.ts
-	if ex.intMode {
-		ex.unsupported("time model in int mode")
+	if a.Const {
+		v := a.BigS().Int64()
+		q := v / c
+		if v%c < 0 {
+			q--
+		}
+		return m.k(q)
 	}
-	sh := func(t *Term, k uint64) *Term { return ts.BVBin("bvshl", t, ts.BVConst(64, k)) }
-	w := ts.BVBin("bvor", sh(m, 56), sh(d, 48))
-	w = ts.BVBin("bvor", w, sh(h, 40))
-	w = ts.BVBin("bvor", w, sh(mi, 34))
-	w = ts.BVBin("bvor", w, sh(s, 28))
-	// ns needs 30 bits: keep it in the low 28 bits only when it fits; otherwise unsupported
-	return ts.BVBin("bvor", w, ts.BVBin("bvand", ns, ts.BVConst(64, (1<<28)-1)))
+	ck := m.k(c)
+	if ex.divCache == nil {
+		ex.divCache = map[[2]*Term][2]*Term{}
+	}
+	if w, ok := ex.divCache[[2]*Term{a, ck}]; ok {
+		return w[0]
+	}
+	// a*k with a constant k that is a multiple of c divides exactly
+	if a.Op == "bvmul" {
+		for i := 0; i < 2; i++ {
+			if kc := a.Args[i]; kc.Const && kc.B == nil {
+				if kv := int64(kc.U); kv != 0 && kv%c == 0 {
+					q := m.mul(a.Args[1-i], kv/c)
+					ex.divCache[[2]*Term{a, ck}] = [2]*Term{q, m.k(0)}
+					return q
+				}
+			}
+		}
+	}
+	// small quotients: when the solver shows -R*c <= a < R*c the quotient is an if-then-else
+	// chain over the 2R candidate values (no multiplication for the solver to invert)
+	if ex.sol != nil && ex.specDepth == 0 {
+		for _, R := range []int64{8, 64} {
+			if R > (int64(1)<<61)/c {
+				break
+			}
+			inside := ts.And(m.le(m.k(-R*c), a), m.lt(a, m.k(R*c)))
+			if ex.sol.Check(ts.Not(inside)) != "unsat" {
+				continue
+			}
+			q := m.k(R - 1)
+			for k := R - 2; k >= -R; k-- {
+				q = m.ite(m.lt(a, m.k((k+1)*c)), m.k(k), q)
+			}
+			ex.divCache[[2]*Term{a, ck}] = [2]*Term{q, m.sub(a, m.mul(q, c))}
+			return q
+		}
+	}
+	q := ex.freshVar("tq", BV(64))
+	r := ex.freshVar("tr", BV(64))
+	bound := int64(1) << 62 / c
+	cons := ts.And(ts.Eq(a, m.add(m.mul(q, c), r)),
+		ts.And(ts.And(m.le(m.k(0), r), m.lt(r, ck)),
+			ts.And(m.le(m.k(-bound), q), m.le(q, m.k(bound)))))
+	ex.assertPC(cons)
+	ex.assumptions["time model: calendar quantities stay below 2^62 in magnitude (division by witnesses)"] = true
+	ex.divCache[[2]*Term{a, ck}] = [2]*Term{q, r}
+	return q
+}
+func (m tmath) fmod(a *Term, c int64) *Term { return m.sub(a, m.mul(m.fdiv(a, c), c)) }
+
+// division of a value known to be non-negative: the same witnesses
+func (m tmath) udiv(a *Term, c int64) *Term { return m.fdiv(a, c) }
+
+func (m tmath) eqk(a *Term, k int64) *Term { return m.ex.ts.Eq(a, m.k(k)) }
+
+func (m tmath) leap(y *Term) *Term {
+	ts := m.ex.ts
+	if !y.Const {
+		// the leap rule is decided per concrete year (one path per feasible year, at most 16)
+		y = m.ex.concretize(y, 16, "year for the leap-year rule")
+		v := y.BigS().Int64()
+		return ts.Bool((v%4 == 0 && v%100 != 0) || v%400 == 0)
+	}
+	return ts.Or(ts.And(m.eqk(m.fmod(y, 4), 0), ts.Not(m.eqk(m.fmod(y, 100), 0))), m.eqk(m.fmod(y, 400), 0))
 }
 
-func (ex *Exec) timeField(v Value, shift uint64, width int) *Term {
+// days in month mo (1..12) of year y
+func (m tmath) dim(y, mo *Term) *Term {
+	ts := m.ex.ts
+	thirty := ts.Or(ts.Or(m.eqk(mo, 4), m.eqk(mo, 6)), ts.Or(m.eqk(mo, 9), m.eqk(mo, 11)))
+	return m.ite(m.eqk(mo, 2), m.ite(m.leap(y), m.k(29), m.k(28)), m.ite(thirty, m.k(30), m.k(31)))
+}
+
+// normDay carries a day number outside its month into the neighbouring months (at most
+// normSteps months in either direction); ok tells whether the result is a valid date.
+const normSteps = 3
+
+func (m tmath) normDay(y, mo, d *Term) (ny, nmo, nd, ok *Term) {
+	ts := m.ex.ts
+	for i := 0; i < normSteps; i++ {
+		dm := m.dim(y, mo)
+		over := m.lt(dm, d)
+		d = m.ite(over, m.sub(d, dm), d)
+		wrap := ts.And(over, m.eqk(mo, 12))
+		y = m.ite(wrap, m.add(y, m.k(1)), y)
+		mo = m.ite(over, m.ite(wrap, m.k(1), m.add(mo, m.k(1))), mo)
+	}
+	for i := 0; i < normSteps; i++ {
+		under := m.lt(d, m.k(1))
+		wrap := ts.And(under, m.eqk(mo, 1))
+		py := m.ite(wrap, m.sub(y, m.k(1)), y)
+		pmo := m.ite(under, m.ite(wrap, m.k(12), m.sub(mo, m.k(1))), mo)
+		d = m.ite(under, m.add(d, m.dim(py, pmo)), d)
+		y, mo = py, pmo
+	}
+	ok = ts.And(m.le(m.k(1), d), m.le(d, m.dim(y, mo)))
+	return y, mo, d, ok
+}
+
+// a Time is kept as civil and clock fields: ext = year,
+// wall = month<<52 | day<<47 | hour<<42 | minute<<36 | second<<30 | nanosecond
+func (m tmath) pack(mo, d, h, mi, sec, ns *Term) *Term {
+	ts := m.ex.ts
+	sh := func(t *Term, k uint64) *Term { return ts.BVBin("bvshl", t, ts.BVConst(64, k)) }
+	or := func(a, b *Term) *Term { return ts.BVBin("bvor", a, b) }
+	return or(or(or(sh(mo, 52), sh(d, 47)), or(sh(h, 42), sh(mi, 36))), or(sh(sec, 30), ns))
+}
+
+type timeFields struct {
+	y, mo, d, h, mi, sec, ns *Term
+	st                       *StructV
+}
+
+func (ex *Exec) timeParts(v Value) timeFields {
 	st, ok := v.(*StructV)
 	if !ok {
 		ex.unsupported("time.Time value is %T", v)
 	}
-	w, ok := st.Fields[0].(*Term)
-	if !ok {
-		ex.unsupported("time.Time wall word")
+	w, ok1 := st.Fields[0].(*Term)
+	y, ok2 := st.Fields[1].(*Term)
+	if !ok1 || !ok2 {
+		ex.unsupported("time.Time fields")
 	}
 	ts := ex.ts
-	r := ts.BVBin("bvlshr", w, ts.BVConst(64, shift))
-	return ts.BVBin("bvand", r, ts.BVConst(64, (uint64(1)<<uint(width))-1))
+	field := func(shift uint64, width int) *Term {
+		r := ts.BVBin("bvlshr", w, ts.BVConst(64, shift))
+		return ts.BVBin("bvand", r, ts.BVConst(64, (uint64(1)<<uint(width))-1))
+	}
+	return timeFields{y: y, mo: field(52, 4), d: field(47, 5), h: field(42, 5), mi: field(36, 6), sec: field(30, 6), ns: field(0, 30), st: st}
+}
+
+func (ex *Exec) timeMake(like *StructV, y, mo, d, h, mi, sec, ns *Term, loc Value) *StructV {
+	fs := append([]Value(nil), like.Fields...)
+	fs[0], fs[1] = tmath{ex}.pack(mo, d, h, mi, sec, ns), y
+	if loc != nil {
+		fs[2] = loc
+	}
+	return &StructV{Fields: fs}
 }
 
 func init() {
+	note := "package time is modelled over the proleptic Gregorian calendar in UTC as civil fields (year, month, day, ns of day); time.Date carries months outside 1..12 into the year and days outside the month into at most 3 neighbouring months; hour/minute/second/nanosecond arguments must be in range; Add moves by at most 3 months of days; Sub, Unix, Weekday and time zones are not modelled"
 	registerIntrinsic("time.Date", func(ex *Exec, fr *Frame, fn *ssa.Function, a []Value, site ssa.Instruction) Value {
-		ts := ex.ts
-		y, m, d := a[0].(*Term), a[1].(*Term), a[2].(*Term)
-		h, mi, s, ns := a[3].(*Term), a[4].(*Term), a[5].(*Term), a[6].(*Term)
-		in := func(t *Term, lo, hi int64) *Term {
-			return ts.And(ts.BVCmp("bvsge", t, ts.BVSigned(64, lo)), ts.BVCmp("bvsle", t, ts.BVSigned(64, hi)))
+		if ex.intMode {
+			ex.unsupported("time model in int mode")
 		}
-		norm := ts.And(in(m, 1, 12), ts.And(in(d, 1, 28), ts.And(in(h, 0, 23), ts.And(in(mi, 0, 59), ts.And(in(s, 0, 59), in(ns, 0, (1<<28)-1))))))
+		ts := ex.ts
+		m := tmath{ex}
+		y, mo, d := a[0].(*Term), a[1].(*Term), a[2].(*Term)
+		h, mi, s, ns := a[3].(*Term), a[4].(*Term), a[5].(*Term), a[6].(*Term)
+		in := func(t *Term, lo, hi int64) *Term { return ts.And(m.le(m.k(lo), t), m.le(t, m.k(hi))) }
+		norm := ts.And(in(h, 0, 23), ts.And(in(mi, 0, 59), ts.And(in(s, 0, 59), in(ns, 0, 999999999))))
 		if !norm.IsTrue() {
-			if !ex.branch(norm, "time.Date fields normalised") {
-				ex.unsupported("time.Date with fields that need calendar normalisation (month outside 1..12, day > 28, ...)")
+			if !ex.branch(norm, "time.Date clock fields in range") {
+				ex.unsupported("time.Date with hour/minute/second/nanosecond outside their ranges")
 			}
 		}
-		ex.assumptions["time.Date is modelled for normalised fields only (1<=month<=12, 1<=day<=28, ns < 2^28); calendar arithmetic of package time is not modelled"] = true
+		ex.assumptions[note] = true
+		// months
+		inMonth := in(mo, 1, 12)
+		if !inMonth.IsTrue() && !ex.branch(inMonth, "time.Date month in 1..12") {
+			m0 := m.sub(mo, m.k(1))
+			y = m.add(y, m.fdiv(m0, 12))
+			mo = m.add(m.fmod(m0, 12), m.k(1))
+		}
+		// days
+		simple := in(d, 1, 28)
+		if !simple.IsTrue() && !ex.branch(simple, "time.Date day in 1..28") {
+			var ok *Term
+			y, mo, d, ok = m.normDay(y, mo, d)
+			if !ok.IsTrue() && !ex.branch(ok, "time.Date day within 3 months of its month") {
+				ex.unsupported("time.Date with a day more than 3 months outside its month")
+			}
+		}
 		rt := fn.Signature.Results().At(0).Type()
 		z := ex.zero(rt).(*StructV)
-		fs := append([]Value(nil), z.Fields...)
-		fs[0] = ex.timePack(m, d, h, mi, s, ns)
-		fs[1] = y
-		fs[2] = a[7]
-		return &StructV{Fields: fs}
+		return ex.timeMake(z, y, mo, d, h, mi, s, ns, a[7])
 	})
-	field := func(name string, shift uint64, width int) {
+	get := func(name string, f func(timeFields) *Term) {
 		registerIntrinsic("(time.Time)."+name, func(ex *Exec, fr *Frame, fn *ssa.Function, a []Value, site ssa.Instruction) Value {
-			return ex.timeField(a[0], shift, width)
+			return f(ex.timeParts(a[0]))
 		})
 	}
-	field("Month", 56, 8)
-	field("Day", 48, 8)
-	field("Hour", 40, 8)
-	field("Minute", 34, 6)
-	field("Second", 28, 6)
-	field("Nanosecond", 0, 28)
-	registerIntrinsic("(time.Time).Year", func(ex *Exec, fr *Frame, fn *ssa.Function, a []Value, site ssa.Instruction) Value {
-		return a[0].(*StructV).Fields[1]
-	})
+	get("Year", func(t timeFields) *Term { return t.y })
+	get("Month", func(t timeFields) *Term { return t.mo })
+	get("Day", func(t timeFields) *Term { return t.d })
+	get("Hour", func(t timeFields) *Term { return t.h })
+	get("Minute", func(t timeFields) *Term { return t.mi })
+	get("Second", func(t timeFields) *Term { return t.sec })
+	get("Nanosecond", func(t timeFields) *Term { return t.ns })
 	registerIntrinsic("(time.Time).Location", func(ex *Exec, fr *Frame, fn *ssa.Function, a []Value, site ssa.Instruction) Value {
 		return a[0].(*StructV).Fields[2]
 	})
-	_ = types.Typ
+	registerIntrinsic("(time.Time).Add", func(ex *Exec, fr *Frame, fn *ssa.Function, a []Value, site ssa.Instruction) Value {
+		t := ex.timeParts(a[0])
+		m := tmath{ex}
+		if dur := a[1].(*Term); true {
+			// a duration that is syntactically a whole number of days moves the date only
+			var whole *Term
+			if dur.Const && dur.B == nil && int64(dur.U)%nsPerDay == 0 {
+				whole = m.k(int64(dur.U) / nsPerDay)
+			} else if dur.Op == "bvmul" {
+				for i := 0; i < 2; i++ {
+					if kc := dur.Args[i]; kc.Const && kc.B == nil && int64(kc.U) != 0 && int64(kc.U)%nsPerDay == 0 {
+						whole = m.mul(dur.Args[1-i], int64(kc.U)/nsPerDay)
+					}
+				}
+			} else if dur.Op == "bvneg" && dur.Args[0].Op == "bvmul" {
+				in := dur.Args[0]
+				for i := 0; i < 2; i++ {
+					if kc := in.Args[i]; kc.Const && kc.B == nil && int64(kc.U) != 0 && int64(kc.U)%nsPerDay == 0 {
+						whole = m.ex.ts.BVNeg(m.mul(in.Args[1-i], int64(kc.U)/nsPerDay))
+					}
+				}
+			}
+			if whole != nil {
+				ny, nmo, nd, ok := m.normDay(t.y, t.mo, m.add(t.d, whole))
+				if !ok.IsTrue() && !ex.branch(ok, "time.Add within 3 months") {
+					ex.unsupported("time.Time.Add by more than about 3 months of days")
+				}
+				return ex.timeMake(t.st, ny, nmo, nd, t.h, t.mi, t.sec, t.ns, nil)
+			}
+		}
+		nsOfDay := m.add(m.mul(m.add(m.mul(m.add(m.mul(t.h, 60), t.mi), 60), t.sec), 1000000000), t.ns)
+		total := m.add(nsOfDay, a[1].(*Term))
+		dd := m.fdiv(total, nsPerDay)
+		rest := m.sub(total, m.mul(dd, nsPerDay))
+		secs := m.fdiv(rest, 1000000000)
+		nns := m.sub(rest, m.mul(secs, 1000000000))
+		mins := m.fdiv(secs, 60)
+		nsec := m.sub(secs, m.mul(mins, 60))
+		nh := m.fdiv(mins, 60)
+		nmi := m.sub(mins, m.mul(nh, 60))
+		ny, nmo, nd, ok := m.normDay(t.y, t.mo, m.add(t.d, dd))
+		if !ok.IsTrue() && !ex.branch(ok, "time.Add within 3 months") {
+			ex.unsupported("time.Time.Add by more than about 3 months of days")
+		}
+		return ex.timeMake(t.st, ny, nmo, nd, nh, nmi, nsec, nns, nil)
+	})
+	registerIntrinsic("(time.Time).In", func(ex *Exec, fr *Frame, fn *ssa.Function, a []Value, site ssa.Instruction) Value {
+		return a[0]
+	})
+	registerIntrinsic("(time.Time).UTC", func(ex *Exec, fr *Frame, fn *ssa.Function, a []Value, site ssa.Instruction) Value {
+		return a[0]
+	})
 }
 
 func init() {
